@@ -76,6 +76,7 @@ impl SegmentLogReader {
     pub async fn load_batches_by_range_impl(
         &self,
         index_range: &IndexRange,
+        segment_start_offset: u64,
     ) -> Result<Vec<RetainedMessageBatch>, IggyError> {
         let mut file_size = self.file_size();
         if file_size == 0 {
@@ -96,8 +97,9 @@ impl SegmentLogReader {
                     offset += bytes_read;
                     let last_offset_in_batch = batch.base_offset + batch.last_offset_delta as u64;
 
-                    if last_offset_in_batch >= index_range.end.offset as u64 || offset >= file_size
-                    {
+                    // Index offsets are relative to the segment start, batch offsets are absolute.
+                    let range_end_offset = segment_start_offset + index_range.end.offset as u64;
+                    if last_offset_in_batch >= range_end_offset || offset >= file_size {
                         last_batch_to_read = true;
                     }
                     batches.push(batch);
@@ -147,6 +149,7 @@ impl SegmentLogReader {
     pub async fn load_batches_by_range_with_callback<F>(
         &self,
         index_range: &IndexRange,
+        segment_start_offset: u64,
         mut on_batch: F,
     ) -> Result<(), IggyError>
     where
@@ -167,8 +170,8 @@ impl SegmentLogReader {
                 Some((batch, bytes_read)) => {
                     offset += bytes_read;
                     let last_offset_in_batch = batch.base_offset + batch.last_offset_delta as u64;
-                    if offset >= file_size || last_offset_in_batch >= index_range.end.offset as u64
-                    {
+                    let range_end_offset = segment_start_offset + index_range.end.offset as u64;
+                    if offset >= file_size || last_offset_in_batch >= range_end_offset {
                         last_batch_to_read = true;
                     }
                     on_batch(batch)?;
